@@ -185,7 +185,7 @@ func main() {
 			runs += sp.ExtraQuickRuns
 		}
 	}
-	outDir := filepath.Join("/verif/out", *prop)
+	outDir := filepath.Join(root(), "out", *prop)
 	os.RemoveAll(outDir)
 	os.MkdirAll(outDir, 0o755)
 
@@ -251,7 +251,7 @@ func main() {
 	}
 
 	// triage
-	findings, err := simcore.LoadFindings("/verif/known_findings.txt")
+	findings, err := simcore.LoadFindings(filepath.Join(root(), "known_findings.txt"))
 	if err != nil {
 		fmt.Fprintln(os.Stderr, err)
 		os.Exit(2)
@@ -343,11 +343,19 @@ func runSeedOf(base uint64, run int) uint64 {
 	return x
 }
 
+// root is the verification tree the driver works in (VERIF_ROOT, default /verif).
+func root() string {
+	if r := os.Getenv("VERIF_ROOT"); r != "" {
+		return r
+	}
+	return "/verif"
+}
+
 func workerCmd(bin, prop string, env ...string) *exec.Cmd {
 	// address-space limit per worker: a run that drives the engine into a runaway
 	// allocation kills one worker (reported as harness trouble), not the machine
 	cmd := exec.Command("/bin/bash", "-c", "ulimit -v 6000000; exec \"$0\" \"$@\"", bin, "-test.run", "^TestWorker$", "-test.timeout", "0", "-test.count", "1")
-	cmd.Env = append(os.Environ(), "GODEBUG=asyncpreemptoff=1", "GOMAXPROCS=1", "VERIF_PROP="+prop)
+	cmd.Env = append(os.Environ(), "GODEBUG=asyncpreemptoff=1", "GOMAXPROCS=1", "VERIF_PROP="+prop, "VERIF_OUT="+filepath.Join(root(), "out"))
 	cmd.Env = append(cmd.Env, env...)
 	return cmd
 }
@@ -391,7 +399,7 @@ func runWorker(bin, prop, tier, harness string, seed uint64, from, to int, a *ag
 				rs := runSeedOf(seed, run)
 				rf := &simcore.ReplayFile{Property: prop, Harness: harness, Seed: rs, Run: run, Case: cs, Choices: nil, Class: class, Violation: msg}
 				rf.Original.Ops = len(cs.Ops)
-				p := filepath.Join("/verif/out", prop, fmt.Sprintf("replay-%d-%d.json", rs, run))
+				p := filepath.Join(root(), "out", prop, fmt.Sprintf("replay-%d-%d.json", rs, run))
 				rf.Write(p)
 				res := simcore.Result{Seed: rs, Run: run, Outcome: "crash", Violation: msg, Class: class, Replay: p, NChoices: 1 << 30}
 				b, _ := json.Marshal(res)
@@ -674,8 +682,8 @@ func writeEvidence(prop, tier string, seed uint64, sp spec, a *agg, wallS float6
 		"violations": violations,
 	}
 	b, _ := json.MarshalIndent(ev, "", " ")
-	os.MkdirAll("/verif/evidence", 0o755)
-	if err := os.WriteFile(filepath.Join("/verif/evidence", prop+".json"), b, 0o644); err != nil {
+	os.MkdirAll(filepath.Join(root(), "evidence"), 0o755)
+	if err := os.WriteFile(filepath.Join(root(), "evidence", prop+".json"), b, 0o644); err != nil {
 		fmt.Fprintln(os.Stderr, err)
 		os.Exit(2)
 	}
